@@ -375,6 +375,42 @@ func ruleVisitorCoverage(funcName, ruleTot, ruleChild string, minCases int) func
 				walk(st, nt.Obj().Name())
 			}
 		}
+		// implementers that are matched only through an interface-typed (or multi-type) case: their
+		// fields are not accessible there, so any child they have is skipped
+		for _, t := range impls {
+			i, ok := sw.covers(t)
+			if !ok {
+				continue
+			}
+			exact := false
+			for _, ct := range sw.cases[i].types {
+				if ct != nil && types.Identical(ct, t) && len(sw.cases[i].types) == 1 {
+					exact = true
+				}
+			}
+			st := structOf(t)
+			nt := core.NamedOf(t)
+			if exact || st == nil || nt == nil {
+				continue
+			}
+			for k := 0; k < st.NumFields(); k++ {
+				f := st.Field(k)
+				fk := nt.Obj().Name() + "." + f.Name()
+				if f.Embedded() {
+					if est := structOf(f.Type()); est != nil && !isNodeish(f.Type(), nodeIface, 0) {
+						continue
+					}
+				}
+				if !isNodeish(f.Type(), nodeIface, 0) {
+					continue
+				}
+				if _, ok := nonChildFields[fk]; ok {
+					continue
+				}
+				key := fmt.Sprintf("%s/case %s/field %s", funcName, typeLabel(t), f.Name())
+				c.Bad(ruleChild, key, sw.cases[i].cc.Pos(), fmt.Sprintf("%s is matched only by the catch-all case `%s`, which cannot reach its Node-typed field %s: nodes below it are never visited", typeLabel(t), types.ExprString(sw.cases[i].cc.List[0]), fk))
+			}
+		}
 		_ = strings.Join
 	}
 }
